@@ -3,6 +3,10 @@
 # case:   c10.run <stream> <fragMs>:<fragNum>:<delThr>:<cleanup> <ev>,<ev>,...
 #   N | P:<patpmt> | A|V:<pts>:<dts>:<boundary>:<now>:<tsPackets> | D | C      (see harness/cmd/lalprobe/c10.go)
 # output: ops <op>;<op>;... files <name>=<c|o>:<hex>,...
+# case:   c10.sm <stream> <fragMs>:<fragNum>:<delThr>:<cleanup> <ev>,...     the server level on the real ServerManager
+#   N (publish) | P | A|V | D (stop: arms the real delayed cleanup) | T (housekeeping tick) | C (wait for the oldest
+#   armed cleanup to run)                                                     (see harness/cmd/lalprobe/c10srv.go)
+# output: ev <ops of event 1>|<ops of event 2>|... files ...
 #
 # The oracle below re-plays the implementation's operation log on its own file
 # system and evaluates the property on EVERY prefix, with an m3u8 parser written
@@ -15,13 +19,18 @@ ID = "C10"
 RULE = ("boundary sweep of segment durations around fragment_duration_ms (in ms and in single 90 kHz ticks), forced splits at "
         "10x the target and at 1 s backwards, target-duration rounding points, every fragment_num{1,3,6} x delete_threshold{0,1,2} x "
         "cleanup_mode{0,1,2} ring run past the ring capacity, audio-only, no key frames, PAT/PMT change, re-publish with and without "
-        "the deferred directory cleanup, then seeded random frame sequences; a case is non-trivial when the model output contains at "
-        "least one playlist write; distinct = distinct (class, config, number of operations, number of segments)")
+        "the deferred directory cleanup (chains of publications, publications that close nothing), then seeded random frame sequences; "
+        "the server level on the real ServerManager (c10.sm): after a stopped publication every word over {housekeeping tick, "
+        "re-publish, delayed cleanup fires, stop} up to length 3 (4 in the thorough tier), i.e. the cleanup firing before, between "
+        "and after 'tick erases the group' / 're-publish creates a fresh group'; a case is non-trivial when the model output contains "
+        "at least one playlist write; distinct = distinct (class, config, number of operations, number of segments) resp. the word")
 ASSUMPTIONS = ["file-system-layer calls succeed and are atomic (crash points are between two calls)",
                "the muxer is driven directly with (tsPackets, frame, boundary) as Rtmp2MpegtsRemuxer / logic.Group do; the observer "
                "(OnFragmentOpen -> FlushAudio re-entrancy) is nil",
-               "ServerManager.CleanupHlsIfNeeded's deferred task is replayed by the harness (RemoveAll unless a muxer is alive), "
-               "its timer is not",
+               "c10.run replays ServerManager.CleanupHlsIfNeeded's deferred task in the harness (RemoveAll unless a muxer is alive); "
+               "c10.sm and c10.cleanup run the real closure on its real timer (naza defertaskthread), the delay shortened by "
+               "configuration only; a script event placed before a timer must have completed before it fires (checked; the attempt "
+               "is repeated otherwise)",
                "the property clauses about TS packets are evaluated when the fed data are whole 188-byte packets and a 376-byte "
                "PAT/PMT was fed first (as mpegts does); other inputs are compared model == implementation only"]
 FULL_OUTPUT = True
@@ -65,6 +74,12 @@ class Sc:
 
     def C(self):
         self.ev.append("C"); return self
+
+    def T(self):
+        self.ev.append("T"); return self
+
+    def line_sm(self, ms, num, thr, mode):
+        return "c10.sm %s %d:%d:%d:%d %s" % (self.stream, ms, num, thr, mode, ",".join(self.ev) if self.ev else "-")
 
     def P(self, k=0, raw=None):
         self.ev.append("P:" + (raw if raw is not None else patpmt(k))); return self
@@ -196,10 +211,70 @@ def gen_cases(tier, rng):
                 sc.now += 5000
                 sc.N().P(); steady(sc, 0, n2, 1000, per_seg=2); sc.V(n2 * 1000, True); sc.D()
                 yield Case(sc.line(1000, 3, 1, mode), cls="republish" + ("-cleanup" if cleanup == "C" else "-alive-cleanup" if cleanup else ""))
+    # re-publish chains: the numbering carries on over three publications and past the ring capacity, after a
+    # publication that closed nothing / fed nothing, with a forced split at the first frame, in every cleanup mode
+    for mode in [0, 1, 2]:
+        for num, thr in [(1, 0), (3, 1), (6, 2)]:
+            sc = Sc().N().P(); steady(sc, 0, num + 1, 1000, per_seg=2); sc.V((num + 1) * 1000, True).D()
+            sc.now += 3000
+            sc.N().P().D()                                           # a publication that feeds nothing
+            sc.N().P().V(0, False).V(40, False).D()                  # ... and one that never opens a segment
+            sc.N().P(1); steady(sc, 5000, thr + 2, 1000, per_seg=2); sc.V(5000 + (thr + 2) * 1000, True).D()
+            sc.now += 3000
+            sc.N().P().V(0, True).V(20000, False).V(21000, True).D()  # forced split inside the third publication
+            yield Case(sc.line(1000, num, thr, mode), cls="republish-chain")
+        sc = Sc().N().P().V(0, True).D().N().P().V(0, True).D().N().P().V(0, True).V(1000, True).D()
+        yield Case(sc.line(1000, 2, 0, mode), cls="republish-chain")
     # the real ServerManager.CleanupHlsIfNeeded deferred task, with and without a live muxer
     for mode in [0, 1, 2]:
         for alive in [1, 0]:
             yield Case("c10.cleanup %d %d" % (mode, alive), cls="server-manager-cleanup")
+    # the server level: publish / stop (arms the REAL delayed cleanup) / housekeeping tick (erases the idle group) /
+    # re-publish (fresh group) / the cleanup firing, in every order.  After a first publication that is stopped,
+    # every word over {T tick, R re-publish + 2 segments, C wait for the oldest cleanup, D stop} up to a length;
+    # then more frames when a publisher is live, stop, and all pending cleanups.
+    import itertools
+    def sm_script(word, ms, n1=3):
+        sc = Sc().N().P()
+        t = steady(sc, 0, n1, ms, per_seg=2); sc.V(t, True); sc.D()
+        live, pend, t = False, 1, 0
+        for w in word:
+            if w == "T":
+                sc.T()
+            elif w == "R":
+                if not live:
+                    sc.now += 500
+                    sc.N().P(); t = steady(sc, 0, 2, ms, per_seg=2); sc.V(t, True); live = True
+                else:
+                    sc.N()                     # refused: already has a publisher
+            elif w == "C":
+                sc.C(); pend = max(0, pend - 1)
+            elif w == "D":
+                if live:
+                    pend += 1
+                sc.D(); live = False
+        if live:
+            t = steady(sc, t + ms, 2, ms, per_seg=2); sc.V(t, True); sc.D(); pend += 1
+        for _ in range(pend):
+            sc.C()
+        return sc
+    words = []
+    for n in (1, 2, 3) if Q else (1, 2, 3, 4):
+        words += ["".join(w) for w in itertools.product("TRCD", repeat=n)]
+    key_words = ["TRC", "TCR", "CTR", "RTC", "RCT", "RC", "TR", "TRDCC", "TRDCTRC", "TRDTRCC", "RDTRCC", "TTRC"]
+    for mode, (ms, num, thr) in [(1, (20, 2, 1)), (2, (25, 1, 1)), (0, (50, 1, 0))]:
+        if mode == 1:
+            ws = [w for w in words if "R" in w] + key_words[7:]
+        elif mode == 2:
+            ws = key_words + ([] if Q else [w for w in words if "R" in w])
+        else:
+            ws = ["TRC", "RC", "TCR"]
+        seen = set()
+        for w in ws:
+            if w in seen:
+                continue
+            seen.add(w)
+            yield Case(sm_script(w, ms).line_sm(ms, num, thr, mode), cls="server-" + ("republish-after-erase" if "TR" in w.replace("C", "") else "interleaving"))
     # hostile / degenerate inputs: compared model == implementation only
     sc = Sc().P().V(0, True).D().C()
     yield Case(sc.line(1000, 3, 1, 0), cls="degenerate")
@@ -258,6 +333,11 @@ def gen_cases(tier, rng):
 def nontrivial(c, out):
     if c.line.startswith("c10.cleanup"):
         return c.line
+    if c.line.startswith("c10.sm"):
+        if not out.startswith("ev ") or ";rn:" not in out:
+            return None
+        f = c.line.split(" ")
+        return "%s|%s|%s" % (c.cls, f[2], "".join(e[0] for e in f[3].split(",") if e[0] in "NDTC"))
     if not out.startswith("ops ") or ";rn:" not in out:
         return None
     f = c.line.split(" ")
@@ -361,11 +441,24 @@ def parse_case(line):
     return stream, (ms, num, thr, mode), evs
 
 
+def parse_groups(out):
+    """c10.sm: the calls of each event"""
+    f = out.split(" ")
+    if len(f) != 4 or f[0] != "ev" or f[2] != "files":
+        raise ValueError("unparsable output")
+    if f[1] == "-":
+        return []
+    return [[] if g == "-" else [o.split(":") for o in g.split(";")] for g in f[1].split("|")]
+
+
 def parse_out(out):
     f = out.split(" ")
-    if len(f) != 4 or f[0] != "ops" or f[2] != "files":
+    if len(f) != 4 or f[0] not in ("ops", "ev") or f[2] != "files":
         raise ValueError("unparsable output")
-    ops = [] if f[1] == "-" else [o.split(":") for o in f[1].split(";")]
+    if f[0] == "ev":
+        ops = [o for g in parse_groups(out) for o in g]
+    else:
+        ops = [] if f[1] == "-" else [o.split(":") for o in f[1].split(";")]
     files = {}
     if f[3] != "-":
         for it in f[3].split(","):
@@ -421,6 +514,27 @@ def check(line, out):
         return None
 
     fails = []
+    if line.startswith("c10.sm"):
+        # the delayed cleanup never removes the directory while a publisher (hence a muxer) is live for the name,
+        # and nothing but a delayed cleanup ever removes it: liveness is read off the SCRIPT (N .. D), the
+        # removal off the implementation's calls
+        groups = parse_groups(out)
+        if len(groups) != len(evs):
+            fails.append(("ops", "%d events but %d groups of calls" % (len(evs), len(groups))))
+        alive = False
+        for n, (e, g) in enumerate(zip(evs, groups)):
+            for o in g:
+                if o[0] == "ra":
+                    if alive:
+                        fails.append(("cleanup-live", "event %d (%s): the stream directory was removed while a publisher is live" % (n, e[0])))
+                    elif e[0] != "C":
+                        fails.append(("cleanup-live", "event %d (%s) removed the stream directory" % (n, e[0])))
+                elif e[0] in ("T", "C"):
+                    fails.append(("ops", "event %d (%s) made the call %s" % (n, e[0], o[0])))
+            if e[0] == "N":
+                alive = True
+            elif e[0] == "D":
+                alive = False
     fsys = {}           # name -> [bytearray, closed]
     versions = []       # parsed live playlists, one per replacement of the live file
     last_seq = None
@@ -519,7 +633,7 @@ def check(line, out):
     first_written = None
     pending_pp = None   # PAT/PMT written to the first segment, checked once the opening frame is known
     session_versions = 0
-    carried = False
+    first_id = 0
     for i, o in enumerate(ops):
         k = o[0]
         S = sessions[sess] if 0 <= sess < len(sessions) else None
@@ -533,7 +647,14 @@ def check(line, out):
             first_written = None
             pending_pp = None
             session_versions = 0
-            carried = live in fsys
+            # a muxer that finds a live playlist carries on with its numbering (media sequence, segment ids)
+            first_id = 0
+            if live in fsys:
+                try:
+                    pl0 = parse_m3u8(bytes(fsys[live][0]))
+                    first_id = pl0["seq"] + len(pl0["segs"])
+                except M3u8Error:
+                    pass
         elif S is None:
             if k != "ra":
                 fails.append(("ops", "op %d (%s) before any session" % (i, k)))
@@ -547,8 +668,8 @@ def check(line, out):
             seg_writes[o[1]] = []
             created[sess].append(o[1])
             ids = [int(n.rsplit("-", 1)[1][:-3]) for n in created[sess]]
-            if ids != list(range(len(ids))):
-                fails.append(("loss", "op %d: segment ids of the session are %s" % (i, ids[-3:])))
+            if ids != list(range(first_id, first_id + len(ids))):
+                fails.append(("loss", "op %d: segment ids of the session are %s, expected to start at %d" % (i, ids[-3:], first_id)))
         elif k == "wr":
             b = hexb(o[2])
             if o[1] in fsys:
@@ -593,8 +714,8 @@ def check(line, out):
                     try:
                         pl = parse_m3u8(bytes(fsys[live][0]))
                         if last_seq is not None and pl["seq"] < last_seq:
-                            fails.append(("seq-republish" if carried and session_versions == 0 else "seq",
-                                          "op %d: media sequence went from %d to %d" % (i, last_seq, pl["seq"])))
+                            fails.append(("seq", "op %d: media sequence went from %d to %d%s" % (
+                                i, last_seq, pl["seq"], " (first playlist of a re-publication)" if session_versions == 0 else "")))
                         last_seq = pl["seq"]
                         versions.append(pl)
                         session_versions += 1
@@ -651,23 +772,30 @@ def oracle(c, out):
 def classify_finding(c, out):
     if c.line.startswith("c10.cleanup"):
         return None
-    try:
-        fails = check(c.line, out)
-    except Exception:
-        return None
-    if fails and all(k == "seq-republish" for k, _ in fails):
-        return "C10-republish-media-sequence-restarts"
-    return None
+    return None       # both listed findings are fixed in lal: nothing is excused
 
 
 def neighbors(c, rng):
     """cases near a disagreement: drop events, change the configuration"""
     f = c.line.split(" ")
+    if f[0] == "c10.sm":
+        evs = f[3].split(",") if f[3] != "-" else []
+        ctl = [i for i, e in enumerate(evs) if e in ("T", "C", "D", "N")]
+        for _ in range(24):
+            e2 = list(evs)
+            r = rng.random()
+            if r < 0.4 and len(ctl) >= 2:
+                i, j = rng.sample(ctl, 2)
+                e2[i], e2[j] = e2[j], e2[i]
+            elif r < 0.7 and ctl:
+                del e2[rng.choice(ctl)]
+            else:
+                e2.insert(rng.randrange(len(e2) + 1), rng.choice(["T", "C"]))
+            yield "%s %s %s %s" % (f[0], f[1], f[2], ",".join(e2) if e2 else "-")
+        return
     if f[0] != "c10.run":
         return
     evs = f[3].split(",") if f[3] != "-" else []
-    if "D" in evs:        # one session only: re-publish over an old playlist is the listed known finding
-        evs = evs[:evs.index("D") + 1]
     for _ in range(60):
         e2 = [e for e in evs if rng.random() < 0.85]
         cf = f[2].split(":")
